@@ -23,4 +23,211 @@ theorem add_of_noSuffix (kvs : AMap Node) {k : String} (v : Node) (h : hasIdxSuf
     add kvs k v = AMap.insert kvs k v := by
   simp [add, parseSeg_of_noSuffix h]
 
+theorem Node.Valid.leaf (v : Scalar) : (Node.leaf v).Valid := ⟨.leaf v, .leaf v⟩
+
+theorem Node.Valid.of_list_mem {xs : List Node} (h : (Node.list xs).Valid) {x : Node} (hx : x ∈ xs) : x.Valid := by
+  obtain ⟨hw, hk⟩ := h
+  cases hw with
+  | list hw => cases hk with
+    | list hk => exact ⟨hw x hx, hk x hx⟩
+
+theorem Node.Valid.of_cont_mem {kvs : List (String × Node)} (h : (Node.cont kvs).Valid) {p : String × Node}
+    (hp : p ∈ kvs) : p.2.Valid ∧ hasIdxSuffix p.1 = false := by
+  obtain ⟨hw, hk⟩ := h
+  cases hw with
+  | cont _ hw => cases hk with
+    | cont hk1 hk2 => exact ⟨⟨hw p hp, hk2 p hp⟩, hk1 p hp⟩
+
+theorem Node.Valid.sorted {kvs : List (String × Node)} (h : (Node.cont kvs).Valid) : AMap.Sorted kvs := h.1.sorted
+
+end Ytk
+
+namespace Ytk
+
+/-! ### stripping index groups terminates with a suffix-free base -/
+
+theorem stripIdx_length {s p : List Char} {i : Nat} (h : stripIdx s = some (p, i)) : p.length < s.length := by
+  unfold stripIdx at h
+  split at h
+  · rename_i r hr
+    split at h
+    · rename_i d ds p' ht hd
+      cases h
+      have hlen : s.length = r.length + 1 := by
+        have := congrArg List.length hr
+        simpa using this
+      have hr2 : r = (d :: ds) ++ ('[' :: p') := by
+        have h2 := List.takeWhile_append_dropWhile (p := isDigit) (l := r)
+        rw [ht, hd] at h2
+        exact h2.symm
+      rw [hlen, hr2]
+      simp
+      omega
+    · cases h
+  · cases h
+
+theorem parseSegAux_noSuffix : ∀ (fuel : Nat) (s : List Char) (acc : List Nat), s.length ≤ fuel →
+    stripIdx (parseSegAux fuel s acc).1 = none
+  | 0, s, acc, h => by
+    have : s = [] := List.eq_nil_of_length_eq_zero (by omega)
+    subst this
+    rfl
+  | fuel + 1, s, acc, h => by
+    simp only [parseSegAux]
+    cases hs : stripIdx s with
+    | none => simpa using hs
+    | some pi =>
+      obtain ⟨p, i⟩ := pi
+      simp only
+      exact parseSegAux_noSuffix fuel p (i :: acc) (by have := stripIdx_length hs; omega)
+
+theorem parseSeg_base_noSuffix (s : String) : hasIdxSuffix (parseSeg s).1 = false := by
+  have := parseSegAux_noSuffix s.length s.toList [] (Nat.le_of_eq String.length_toList)
+  simp [hasIdxSuffix, parseSeg, String.toList_ofList, this]
+
+/-! ### validity is preserved by the builder primitives -/
+
+theorem Node.Valid.null : Node.null.Valid := Node.Valid.leaf _
+
+theorem Node.Valid.list_of {xs : List Node} (h : ∀ x ∈ xs, x.Valid) : (Node.list xs).Valid :=
+  ⟨.list (fun x hx => (h x hx).1), .list (fun x hx => (h x hx).2)⟩
+
+theorem Node.Valid.cont_of {kvs : List (String × Node)} (hs : AMap.Sorted kvs)
+    (h : ∀ p ∈ kvs, p.2.Valid ∧ hasIdxSuffix p.1 = false) : (Node.cont kvs).Valid :=
+  ⟨.cont hs (fun p hp => (h p hp).1.1), .cont (fun p hp => (h p hp).2) (fun p hp => (h p hp).1.2)⟩
+
+theorem Node.Valid.empty : (Node.cont []).Valid := Node.Valid.cont_of .nil (by intro p hp; cases hp)
+
+theorem mem_padTo {xs : List Node} {n : Nat} {x : Node} (h : x ∈ padTo xs n) : x ∈ xs ∨ x = Node.null := by
+  simp only [padTo, List.mem_append, List.mem_replicate] at h
+  rcases h with h | h
+  · exact Or.inl h
+  · exact Or.inr h.2
+
+theorem padTo_valid {xs : List Node} {n : Nat} (h : ∀ x ∈ xs, x.Valid) : ∀ x ∈ padTo xs n, x.Valid := by
+  intro x hx
+  rcases mem_padTo hx with hx | rfl
+  · exact h x hx
+  · exact Node.Valid.null
+
+theorem set_valid {xs : List Node} {i : Nat} {v : Node} (h : ∀ x ∈ xs, x.Valid) (hv : v.Valid) :
+    ∀ x ∈ xs.set i v, x.Valid := by
+  intro x hx
+  rcases List.mem_or_eq_of_mem_set hx with hx | rfl
+  · exact h x hx
+  · exact hv
+
+theorem getElem?_valid {xs : List Node} {i : Nat} {x : Node} (h : ∀ x ∈ xs, x.Valid) (hx : xs[i]? = some x) : x.Valid :=
+  h x (List.mem_of_getElem? hx)
+
+theorem setSlot_valid : ∀ (is : List Nat) (cur : Option Node) (v : Node), (∀ n, cur = some n → n.Valid) → v.Valid →
+    (setSlot cur is v).Valid
+  | [], _, v, _, hv => by simpa [setSlot] using hv
+  | i :: is, cur, v, hc, hv => by
+    simp only [setSlot]
+    have hxs : ∀ x ∈ (match cur with | some (.list xs) => xs | _ => []), x.Valid := by
+      intro x hx
+      split at hx
+      · rename_i xs
+        exact (hc _ rfl).of_list_mem hx
+      · cases hx
+    apply Node.Valid.list_of
+    apply set_valid (padTo_valid hxs)
+    apply setSlot_valid is _ v _ hv
+    intro n hn
+    exact getElem?_valid (padTo_valid hxs) hn
+
+theorem AMap.mem_insert {α : Type} {m : AMap α} {k : String} {a : α} {p : String × α} (h : p ∈ AMap.insert m k a) :
+    p = (k, a) ∨ p ∈ m := by
+  induction m with
+  | nil => simp [AMap.insert] at h; exact Or.inl h
+  | cons q m ih =>
+    obtain ⟨k', v'⟩ := q
+    simp only [AMap.insert] at h
+    split at h
+    · simp only [List.mem_cons] at h ⊢
+      rcases h with h | h | h
+      · exact Or.inl h
+      · exact Or.inr (Or.inl h)
+      · exact Or.inr (Or.inr h)
+    · split at h
+      · rename_i hk
+        simp only [List.mem_cons] at h ⊢
+        rcases h with h | h
+        · subst hk; exact Or.inl h
+        · exact Or.inr (Or.inr h)
+      · simp only [List.mem_cons] at h ⊢
+        rcases h with h | h
+        · exact Or.inr (Or.inl h)
+        · rcases ih h with h | h
+          · exact Or.inl h
+          · exact Or.inr (Or.inr h)
+
+theorem insert_valid {kvs : AMap Node} {k : String} {v : Node} (h : (Node.cont kvs).Valid)
+    (hk : hasIdxSuffix k = false) (hv : v.Valid) : (Node.cont (AMap.insert kvs k v)).Valid := by
+  apply Node.Valid.cont_of (AMap.sorted_insert h.sorted _ _)
+  intro p hp
+  rcases AMap.mem_insert hp with rfl | hp
+  · exact ⟨hv, hk⟩
+  · exact h.of_cont_mem hp
+
+theorem get?_valid {kvs : AMap Node} {k : String} {n : Node} (h : (Node.cont kvs).Valid)
+    (hg : AMap.get? kvs k = some n) : n.Valid :=
+  (h.of_cont_mem (AMap.mem_of_get? hg)).1
+
+/-- `add` (AddValue / AddContainer / AddList, with or without index groups) preserves validity —
+    for EVERY name: the API invariant behind D26. -/
+theorem add_valid {kvs : AMap Node} (name : String) {v : Node} (h : (Node.cont kvs).Valid) (hv : v.Valid) :
+    (Node.cont (add kvs name v)).Valid := by
+  unfold add
+  have hb := parseSeg_base_noSuffix name
+  cases hp : parseSeg name with
+  | mk b is =>
+    rw [hp] at hb
+    cases is with
+    | nil =>
+      simp only
+      -- no index group: name itself is the key and equals its base
+      have : name = b := by
+        have h1 : (parseSeg name).2 = [] := by rw [hp]
+        unfold parseSeg at hp h1
+        -- when no group was stripped the base is the name itself
+        have : ∀ (fuel : Nat) (s : List Char) (acc : List Nat), (parseSegAux fuel s acc).2 = [] → (parseSegAux fuel s acc).1 = s := by
+          intro fuel
+          induction fuel with
+          | zero => intro s acc _; rfl
+          | succ n ih =>
+            intro s acc hnil
+            simp only [parseSegAux] at hnil ⊢
+            cases hs : stripIdx s with
+            | none => simp
+            | some pi =>
+              obtain ⟨p, i⟩ := pi
+              simp only [hs] at hnil
+              -- the accumulator only grows
+              have grow : ∀ (fuel : Nat) (s : List Char) (acc : List Nat), acc ≠ [] → (parseSegAux fuel s acc).2 ≠ [] := by
+                intro fuel
+                induction fuel with
+                | zero => intro s acc h; simpa [parseSegAux] using h
+                | succ n ih2 =>
+                  intro s acc h
+                  simp only [parseSegAux]
+                  cases stripIdx s with
+                  | none => simpa using h
+                  | some pi => exact ih2 _ _ (by simp)
+              exact absurd hnil (grow n p (i :: acc) (by simp))
+        have hb1 := this name.length name.toList [] h1
+        have := congrArg Prod.fst hp
+        simp only at this
+        rw [hb1, String.ofList_toList] at this
+        exact this
+      subst this
+      exact insert_valid h hb hv
+    | cons i is =>
+      simp only
+      apply insert_valid h hb
+      apply setSlot_valid _ _ _ _ hv
+      intro n hn
+      exact get?_valid h hn
+
 end Ytk
